@@ -18,6 +18,9 @@ fn run_prop(id: &str, tier: Tier) -> Option<Report> {
         "C02" => props::c02::run(tier),
         "C03" => props::c03::run(tier),
         "C10" => props::c03::run_c10(tier),
+        "C04" => props::c04::run(tier),
+        "C05" => props::c04::run_c05(tier),
+        "C06" => props::c06::run(tier),
         _ => return None,
     })
 }
@@ -29,6 +32,9 @@ fn replay_case(case: &Value) -> Option<(bool, String)> {
         "c02" => props::c02::replay(case),
         "c03" | "c03alias" | "c03linear" => props::c03::replay(case),
         "c10" => props::c03::replay_c10(case),
+        "c04" => props::c04::replay(case),
+        "c05" => props::c04::replay_c05(case),
+        "c06" => props::c06::replay(case),
         _ => return None,
     })
 }
